@@ -10,17 +10,23 @@ import json, os, shutil, subprocess, sys, time
 
 src, sid, name, prop = sys.argv[1:5]
 checks = sys.argv[5:] or [prop]
+OUTNAME = os.environ.get("SEED_NAME", name)
+FALLBACK = os.environ.get("SEED_BASE")  # commit the patch was written against, used if it no longer applies to HEAD
 patch = os.path.join(src, f"{name}.patch")
 demo = os.path.join(src, f"{name}_demo.py")
 W = f"/var/tmp/seedverify.{os.getpid()}"
-out = os.path.join("/verif/seeded", f"{sid}-{name}")
+out = os.path.join("/verif/seeded", f"{sid}-{OUTNAME}")
 
 def sh(cmd, **kw):
     return subprocess.run(cmd, shell=True, capture_output=True, text=True, **kw)
 
 head = sh("git -C /repo rev-parse --short HEAD").stdout.strip()
 sh(f"git -C /repo worktree add --detach -q {W} HEAD")
-meta = {"id": f"{sid}-{name}", "breaks_property": prop, "repo_head": head, "verified_at": time.strftime("%Y-%m-%d %H:%M")}
+if FALLBACK and sh(f"git -C {W} apply --check {patch}").returncode != 0:
+    sh(f"git -C /repo worktree remove --force {W}")
+    sh(f"git -C /repo worktree add --detach -q {W} {FALLBACK}")
+    head = FALLBACK + " (patch does not apply to HEAD any more: a later fix: commit touches the same lines)"
+meta = {"id": f"{sid}-{OUTNAME}", "breaks_property": prop, "repo_head": head, "verified_at": time.strftime("%Y-%m-%d %H:%M")}
 try:
     r = sh(f"/venv/bin/python {demo} {W}")
     meta["demo_on_clean_tree"] = {"exit": r.returncode, "tail": (r.stdout + r.stderr).strip()[-200:]}
@@ -52,4 +58,4 @@ meta["confirmed"] = bool(ok)
 meta["what_ran"] = "tools/verify_seed.py: git worktree of /repo HEAD under /var/tmp, git apply, pytest -q (full suite), demo on changed and clean tree, ./check <id> --tier quick with VERIF_REPO"
 json.dump(meta, open(os.path.join(out, "meta.json"), "w"), indent=1)
 caught = [c for c, d in meta.get("checks_quick", {}).items() if d["violations"]]
-print(f"{sid}-{name}: confirmed={meta['confirmed']} suite={meta.get('suite_with_change')} demo_changed={meta.get('demo_on_changed_tree',{}).get('exit')} demo_clean={meta['demo_on_clean_tree']['exit']} caught_by={caught}")
+print(f"{sid}-{OUTNAME}: confirmed={meta['confirmed']} suite={meta.get('suite_with_change')} demo_changed={meta.get('demo_on_changed_tree',{}).get('exit')} demo_clean={meta['demo_on_clean_tree']['exit']} caught_by={caught}")
